@@ -230,6 +230,73 @@ theorem C11_total : ∃ db, makeDb toTaxa progs = .ok db := by
   obtain ⟨exps, he⟩ := exportations_ok hx
   exact makeDb_isOk_of he
 
+/-- **C11 (which imports count), from the RAW labels.** For a collection with distinct paths whose raw
+labels are parser labels (none already of the form `import_internally:…` — only a hint can make one),
+`p` directly imports `q` **iff** `q` is a collected path and some label of `p` is `import:M` or
+`import:M:<name>` (`M` = the characters up to the next colon, non-empty) with `q = M'.py`, `M'` being `M`
+with `/` for `.`. So: exactly the modules that `p`'s `import M` / `from M import …` statements name by
+their absolute dotted path, when that path is a collected file. `import_module:M` labels, relative forms
+(`from . import x`: empty `M`) and `from pkg import q` (names `pkg.py`, not `pkg/q.py`) never count.
+This is stated with plain string equations: `searchImport?`, `tweakFirstColon` and `internalTarget?` are
+no longer part of the specification. -/
+theorem C11_direct (hn : (pathsOf progs).Nodup) (hraw : NoRawInternal progs) (p q : Name) :
+    Imports progs p q ↔
+      q ∈ pathsOf progs ∧ ∃ prog ∈ progs, prog.path = p ∧ ∃ l ∈ prog.labels, ∃ rest,
+        l.name = sImport ++ cColon :: rest ∧ takeNoColon rest ≠ [] ∧
+        q = replaceChar cDot cSlash (takeNoColon rest) ++ sPy := by
+  have hkeys : List.map (fun x => x.1) (labelled progs) = pathsOf progs := keys_labelled progs
+  have hget : ∀ prog ∈ progs, get? (directD progs) prog.path =
+      some (directOf (pathsOf progs) (labelsOf (internalOf progs) prog)) := by
+    intro prog hprog
+    apply get?_of_mem_nodup
+    · rw [keys_directD]; exact hn
+    · simp only [directD, directImportations, labelled, List.map_map, List.mem_map,
+        Function.comp_apply, Prod.mk.injEq]
+      refine ⟨prog, hprog, rfl, ?_⟩
+      have : List.map ((fun x => x.1) ∘ fun p => (p.path, labelsOf (internalOf progs) p)) progs =
+          pathsOf progs := by simp [pathsOf, Function.comp_def]
+      rw [this]
+  constructor
+  · intro hpq
+    have hq : q ∈ pathsOf progs := resolved_all progs p q hpq
+    refine ⟨hq, ?_⟩
+    unfold Imports Direct succs at hpq
+    cases hg : get? (directD progs) p with
+    | none => rw [hg] at hpq; cases hpq
+    | some v =>
+      have hmem := get?_mem hg
+      simp only [directD, directImportations, labelled, List.map_map, List.mem_map,
+        Function.comp_apply, Prod.mk.injEq] at hmem
+      obtain ⟨prog, hprog, hpath, -⟩ := hmem
+      rw [← hpath, hget prog hprog] at hpq
+      simp only [Option.getD_some, directOf, labelsOf, relabel, List.mem_filterMap,
+        List.mem_map] at hpq
+      obtain ⟨l, ⟨l0, hl0, rfl⟩, ht⟩ := hpq
+      simp only at ht
+      cases hit : internalTarget? (relabelName (internalOf progs) l0.name) with
+      | none => rw [hit] at ht; cases ht
+      | some t =>
+        rw [hit] at ht
+        simp only at ht
+        split at ht
+        · simp only [Option.some.injEq] at ht
+          subst ht
+          obtain ⟨-, -, rest, h1, h2, h3⟩ := relabel_target (hraw prog hprog l0 hl0) hit
+          exact ⟨prog, hprog, hpath, l0, hl0, rest, h1, h2, h3⟩
+        · cases ht
+  · rintro ⟨hq, prog, hprog, hpath, l, hl, rest, h1, h2, h3⟩
+    unfold Imports Direct succs
+    rw [← hpath, hget prog hprog]
+    simp only [Option.getD_some, directOf, labelsOf, relabel, List.mem_filterMap, List.mem_map]
+    refine ⟨{ l with name := relabelName (internalOf progs) l.name }, ⟨l, hl, rfl⟩, ?_⟩
+    simp only
+    have hin : replaceChar cDot cSlash (takeNoColon rest) ++ sPy ∈ internalOf progs := by
+      rw [← h3]
+      simp only [internalOf, internalPaths, List.mem_append]
+      exact Or.inl hq
+    rw [h1, internalTarget_of_import h2 hin, ← h3]
+    simp [hq]
+
 /-! ### SQLite rows -/
 
 /-- `name.partition(":")`: the prefix has no colon, and the name is the prefix alone (no colon at
@@ -250,10 +317,13 @@ theorem partitionColon_spec (n : Name) :
       · exact Or.inl h
       · exact Or.inr h
 
-/-- **C11 (SQLite rows).** The rows built by `write_sqlite` are in bijection with the facts of the
-database: one `program` row per program record (same order, verbatim timestamp, numbered source), one
-`label` row per (program, label, span) occurrence and one `taxon` row per (program, taxon, span)
-occurrence, the derived columns being functions of those (span text, prefix/suffix partition). -/
+/-- **C11 (SQLite rows) — row construction restated.** This theorem cannot fail for the model: `labelFacts`
+/ `taxonFacts` are the same comprehension as `labelRows` / `taxonRows` with fewer columns, and the proofs
+are `simp`/`rfl`. It only documents, in one place, what the rows built by `write_sqlite` are: one
+`program` row per program record (same order, verbatim timestamp, numbered source), one `label` row per
+(program, label, span) occurrence, one `taxon` row per (program, taxon, span) occurrence, the derived
+columns being functions of those (span text, prefix/suffix partition). That the SQLite FILE holds these
+rows (sqlite3 write and read back) is exercised by the harness only. -/
 theorem C11_sqlite_rows (db : Db) :
     (programRows db).map (fun r => (r.program, r.timestamp)) =
       db.programs.map (fun e => (e.1, e.2.timestamp)) ∧
@@ -325,6 +395,13 @@ example : (pathsOf cycleProgs).Nodup ∧
   have hba : Imports cycleProgs exB exA := by
     unfold Imports Direct; rw [cycle_directD]; decide
   exact ⟨by decide, Relation.TransGen.tail (Relation.TransGen.single hab) hba⟩
+
+/-- Non-vacuity of `C11_direct`: the cycle satisfies its hypotheses, and the theorem recovers
+`a.py imports b.py` from the raw label `import:b`. -/
+example : NoRawInternal cycleProgs ∧ Imports cycleProgs exA exB :=
+  ⟨by decide, (C11_direct (progs := cycleProgs) (by decide) (by decide) exA exB).mpr
+    ⟨by decide, cycleProgs.head!, by decide, rfl, { name := impB, spans := [(1, 1, [])] }, by decide,
+      [98], by decide, by decide, by decide⟩⟩
 
 /-! ### Bridge to the filter properties (C04–C07) -/
 
